@@ -336,6 +336,87 @@ def shard_main(shard, nshards, tier):
     return {'counts': counts, 'viols': viols, 'samples': samples}
 
 
+# ---------------------------------------------------------------------------------------------
+# family "builtin": no catch-all. When no rule of the current mode matches, the built-in rule for the node type applies: root and
+# elements process their children IN THE SAME MODE, text and attributes are copied as text, comments and PIs give nothing (5.8).
+# Stylesheets: how processing in mode m starts (at the root, at the document element, at the children of the root, at the
+# attributes) x one rule of mode m or none x one rule of the default mode or none; the expected tree is computed by the
+# reference interpreter lib/refxslt.py.
+
+def builtin_programs():
+    import refxslt as S
+    from refxpath import path, step, name, fn, NODE, TEXTT, COMMENTT, PIT, WILD, DOS
+
+    def E(ast):
+        return (ast, X.to_text(ast))
+
+    def pat(ast, prio):
+        return (ast, X.to_text(ast), [(ast, prio)])
+    ROOT = ('path', 'root', [])
+    ENTRIES = [('select=/', E(ROOT)), ('select=r', E(path(step('child', name('r'))))), ('select=node()', E(path(step('child', NODE)))),
+               ('select=//w', E(path(DOS, step('child', name('w')), start='root'))), ('select=//@*', E(path(DOS, step('attribute', WILD), start='root')))]
+    MRULES = [('none', None), ('/', pat(ROOT, 0.5)), ('r', pat(path(step('child', name('r'))), 0.0)), ('a', pat(path(step('child', name('a'))), 0.0)),
+              ('*', pat(path(step('child', WILD)), -0.5)), ('text()', pat(path(step('child', TEXTT)), -0.5)),
+              ('comment()', pat(path(step('child', COMMENTT)), -0.5)), ('@x', pat(path(step('attribute', name('x'))), 0.0))]
+    DRULES = [('none', None), ('a', pat(path(step('child', name('a'))), 0.0)), ('*', pat(path(step('child', WILD)), -0.5)),
+              ('text()', pat(path(step('child', TEXTT)), -0.5)), ('r', pat(path(step('child', name('r'))), 0.0))]
+    for en, esel in ENTRIES:
+        for mn, mpat in MRULES:
+            for cont in ((False, True) if mpat is not None else (False,)):
+                for dn, dpat in DRULES:
+                    tmpl = [dict(match=(ROOT, '/', [(ROOT, 0.5)]), body=[('lre', 'out', [], [('apply', esel, 'm', [], [])])])]
+                    if mpat is not None:
+                        tmpl.append(dict(match=mpat, mode='m', body=[('lre', 'M', [('n', [E(fn('name'))])], [('apply', None, 'm', [], [])] if cont else [])]))
+                    if dpat is not None:
+                        tmpl.append(dict(match=dpat, body=[('lre', 'D', [('n', [E(fn('name'))])], [])]))
+                    yield ('builtin|%s|mode-m rule %s%s|default-mode rule %s' % (en, mn, ' continuing' if cont else '', dn), {'templates': tmpl})
+
+
+def builtin_docs():
+    El = R.E
+    return [
+        R.make_doc([El('r', [('x', '1')], [El('w', None, [El('a', [('x', '2')], ['t']), El('b')]), 'u', El('a', None, [El('a', None, ['v'])])])], name='B1'),
+        R.make_doc([R.C('c0'), El('r', None, ['t', R.C('c1'), R.P('p', 'd'), El('a', [('x', '3'), ('y', '4')]), El('w', None, [El('w', None, [El('a')])])]), R.P('q', 'e')], name='B2'),
+    ]
+
+
+def builtin_shard(shard, nshards, tier):
+    import refxslt as S
+    w = vlib.Worker('xdrv', stderr_path=os.path.join(vlib.BUILD, 'tmp', 'c10b.%d.err' % shard))
+    counts = {'builtin_programs': 0, 'builtin_evaluations': 0, 'builtin_nontrivial': 0}
+    viols = []
+    docs_ = builtin_docs()
+    for idx, (desc, sheet) in enumerate(builtin_programs()):
+        if idx % nshards != shard:
+            continue
+        counts['builtin_programs'] += 1
+        xsl = S.sheet_text(sheet)
+        for d in docs_:
+            ref = S.Interp(sheet, d).transform()
+            exp = R.canon(ref)
+            try:
+                r = w.request('tr', xsl, d.to_xml())
+            except vlib.WorkerDied as wd:
+                viols.append(('%s|fatal' % desc, {'xsl': xsl, 'xml': d.to_xml(), 'stderr': wd.stderr_tail[-1500:]}))
+                break
+            counts['builtin_evaluations'] += 1
+            if r[0] != '0':
+                viols.append(('%s|transform-error' % desc, {'xsl': xsl, 'xml': d.to_xml(), 'error': r[1][:300]}))
+                break
+            try:
+                got = R.canon(R.parse_xml(r[2]).root)
+            except Exception as e:
+                viols.append(('%s|unparsable-output' % desc, {'xsl': xsl, 'xml': d.to_xml(), 'output': r[2][:600], 'error': str(e)}))
+                break
+            if ref.children and ref.children[0].children:
+                counts['builtin_nontrivial'] += 1
+            if got != exp:
+                viols.append(('%s|wrong-result' % desc, {'xsl': xsl, 'xml': d.to_xml(), 'doc': d.name, 'expected': json.dumps(exp)[:1500], 'got': json.dumps(got)[:1500], 'output': r[2][:800]}))
+                break
+    w.close()
+    return {'counts': counts, 'viols': viols, 'samples': []}
+
+
 def main():
     tier, rp = vlib.tier_from_argv()
     if rp:
@@ -343,6 +424,7 @@ def main():
         return
     t0 = time.time()
     res = vlib.run_sharded(shard_main, (tier,))
+    res += vlib.run_sharded(builtin_shard, (tier,))
     counts = vlib.merge_counts([r['counts'] for r in res])
     viols = [vlib.Violation(sig, det) for r in res for sig, det in r['viols']]
     cov = {
@@ -355,10 +437,14 @@ def main():
                 'at the lowest precedence ends every chain. For every node of the document (elements in two namespaces, attributes, text, '
                 'comment, PI, root) and both modes the chain of instantiated rules is compared with the chain computed per XSLT 5.5/5.6. '
                 'A quarter (quick) / all (thorough) of the sets are run through both the quiet and the conflict-reporting lookup (hook '
-                'XALAN_VERIF_CONFLICT_WARNINGS); outputs must be identical. Non-trivial = some generated rule matches the node.',
+                'XALAN_VERIF_CONFLICT_WARNINGS); outputs must be identical. Non-trivial = some generated rule matches the node. '
+                'Family builtin (no catch-all, so the built-in rules apply and must keep the mode): 5 ways to start processing in mode m x '
+                '8 rules of mode m (none, /, r, a, *, text(), comment(), @x; ending or continuing) x 5 rules of the default mode x 2 '
+                'documents, result tree compared with the one computed by lib/refxslt.py.',
         'samples': [x for r in res for x in r['samples']][:6] or ['none'],
         'rule_sets': counts['rule_sets'], 'transformations': counts['transformations'],
         'warn_path_transformations': counts['warn_path_transformations'],
+        'builtin_programs': counts['builtin_programs'], 'builtin_evaluations': counts['builtin_evaluations'], 'builtin_nontrivial': counts['builtin_nontrivial'],
         'exhaustive': True,
     }
     vlib.finish(PROP, tier, 'exploration', cov, viols, t0, assumptions=['lib/refxpath.py for pattern matching (decided by C09)'])
